@@ -185,7 +185,7 @@ func Main(args []string) int {
 	alphabet := []string{"<", ">", "1", "9", " ", "-", "a", "~", "\\"}
 	hl := 4
 	if thorough {
-		hl = 5
+		hl = 6
 	}
 	heads := []string{""}
 	level := []string{""}
@@ -260,7 +260,7 @@ func Main(args []string) int {
 	rnd := rand.New(rand.NewSource(o.Seed))
 	nr := 3000
 	if thorough {
-		nr = 200000
+		nr = 1000000
 	}
 	valid := []string{sentinelA, sentinelB, field9(validFields),
 		"<134>1 2020-07-20T03:48:21.154+03:00 web01 appServ/api.example.com 101 access.log - POST /v1/items params=" + strings.Repeat("z", 200),
